@@ -52,12 +52,19 @@ def run(tier, seed, args):
     exe = vlib.build_harness()
     deep = tier == "thorough"
     # (A)+(B) page level: all reader histories x subsets of altered pages, replayed on the real PagedReader
-    bad, n = pagecommon.mc_and_replay(v, wd, exe, "MC_PageR", {"MaxDepth": 4 if deep else 3, "MaxCorrupt": 3 if deep else 2},
-                                      ["C11_ReadCache"], ["PropRead", "PropVerdict"], "page-replay-r", "mcr")
-    pagecommon.confirm_r(v, wd, exe, bad)
+    # merged search with per-page cache probes as observer, then the full tree of histories (no merging) one level shallower
+    runs = [({"MaxDepth": 4 if deep else 3, "MaxCorrupt": 3 if deep else 2, "Merge": True}, "mcr")]
+    if deep:
+        runs.append(({"MaxDepth": 3, "MaxCorrupt": 2, "Merge": False}, "mcr_tree"))
+    for consts, tag in runs:
+        bad, n = pagecommon.mc_and_replay(v, wd, exe, "MC_PageR", consts, ["MC_ReadCache"], ["PropRead", "PropVerdict"], "page-replay-r", tag)
+        pagecommon.confirm_r(v, wd, exe, bad)
     # (C) file level: exhaustive single-bit flips of small files + sampled 2/3-bit flips, bursts, overwrites
     files = c07_files(seed)
     file_level(v, wd, exe, seed, "exhaustive", 3000 if deep else 300, files if deep else files[:2], "sw")
+    # (C) whole-file validation on a large file: every page altered in turn must be reported
+    big = [progs.prog("f_big", [progs.new(), progs.pc(progs.small_protos()[1], 25000 if not deep else 60000, seed=seed), progs.FIN])]
+    file_level(v, wd, exe, seed, "pagesweep", 0, big, "big")
     # (C) both CRC backends: same files, same verdicts
     exe_hw = vlib.build_harness(hwcrc=True)
     file_level(v, wd, exe_hw, seed, "exhaustive" if deep else "sample", 2000 if deep else 400, files, "hw")
